@@ -600,6 +600,539 @@ theorem C17_parsed_tape_links (input : Bytes) (T : List Tok) (b : Bool) (h : par
 end Jomini.TextTape
 
 namespace Jomini.TextTape
+
+/-! ### the object-body part: a grammar of regular token lists, and its soundness
+
+`Gr k ts b`: the token list `ts`, placed at tape index `b`, is one value (`.val`), a list of array
+items (`.items`) or an object body (`.body hasM`: `key [op] value` groups, then nothing
+(`hasM = false`) or a `MixedContainer` followed by items).  Container values carry the right
+`end` / `End` indices, the body of an `Object` is a `.body`, and an `Object` flagged mixed has a
+body that reaches its `MixedContainer`. -/
+
+def Tok.isKey : Tok → Bool
+  | .unquoted _ | .quoted _ | .parameter _ | .undefParameter _ => true
+  | _ => false
+
+def Tok.isOp : Tok → Bool
+  | .operator _ => true
+  | _ => false
+
+inductive GK | val | items | body (hasM : Bool)
+
+inductive Gr : GK → List Tok → Nat → Prop
+  | scal {t : Tok} {b : Nat} : t.isKey = true → Gr .val [t] b
+  | arr {mid : List Tok} {b : Nat} {m : Bool} : Gr .items mid (b + 1) →
+      Gr .val (.array (b + 1 + mid.length) m :: (mid ++ [.endTok b])) b
+  | obj {mid : List Tok} {b : Nat} {m x : Bool} : Gr (.body x) mid (b + 1) → (m = true → x = true) →
+      Gr .val (.object (b + 1 + mid.length) m :: (mid ++ [.endTok b])) b
+  | hdr {t : Tok} {r : List Tok} {b : Nat} {h : Slice} : Gr .val (t :: r) (b + 1) → t.isStartTok = true →
+      Gr .val (.header h :: t :: r) b
+  | inil {b : Nat} : Gr .items [] b
+  | ival {v rest : List Tok} {b : Nat} : Gr .val v b → Gr .items rest (b + v.length) → Gr .items (v ++ rest) b
+  | itok {t : Tok} {rest : List Tok} {b : Nat} : t.isStartTok = false → Gr .items rest (b + 1) →
+      Gr .items (t :: rest) b
+  | bnil {b : Nat} : Gr (.body false) [] b
+  | bmixed {rest : List Tok} {b : Nat} : Gr .items rest (b + 1) → Gr (.body true) (.mixedContainer :: rest) b
+  | bfield {k : Tok} {ops v rest : List Tok} {b : Nat} {x : Bool} : k.isKey = true →
+      (ops = [] ∨ ∃ o, ops = [.operator o]) → Gr .val v (b + 1 + ops.length) →
+      Gr (.body x) rest (b + 1 + ops.length + v.length) → Gr (.body x) (k :: (ops ++ (v ++ rest))) b
+
+/-- every `Object` token in `[lo, hi)` has a regular body (and reaches its `MixedContainer` when
+flagged) -/
+def ObjsIn (T : List Tok) (lo hi : Nat) : Prop :=
+  ∀ i e m, lo ≤ i → i < hi → T[i]? = some (.object e m) →
+    ∃ q, Dom.objWalk (toDomTape T) (i + 1) e = some q ∧ (m = true → q < e)
+
+def Sem (T : List Tok) : GK → Nat → Nat → Prop
+  | .val, b, n => ∀ e, b + n ≤ e → Dom.valueNext (toDomTape T) b e = some (b + n)
+  | .items, _, _ => True
+  | .body x, b, n => ∀ f, n < f →
+      ∃ q, Dom.objWalkF f (toDomTape T) b (b + n) = some q ∧ (x = true → q < b + n)
+
+theorem mid_get (A ts B : List Tok) (j : Nat) (hj : j < ts.length) :
+    (A ++ ts ++ B)[A.length + j]? = ts[j]? := by
+  rw [List.append_assoc, List.getElem?_append_right (by omega)]
+  simp [List.getElem?_append_left hj]
+
+theorem Gr.val_head {k : GK} {v : List Tok} {b : Nat} (h : Gr k v b) (hk : k = .val) :
+    ∃ t r, v = t :: r ∧ t.isOp = false := by
+  cases h <;> simp at hk
+  · next t hkey => exact ⟨t, [], rfl, by cases t <;> simp [Tok.isKey] at hkey <;> rfl⟩
+  · exact ⟨_, _, rfl, rfl⟩
+  · exact ⟨_, _, rfl, rfl⟩
+  · exact ⟨_, _, rfl, rfl⟩
+
+theorem opValueOf_nonop (p : Nat) {t : Tok} (h : t.isOp = false) :
+    (Dom.opValueOf p (toDomTok t)).2 = p + 1 := by
+  cases t <;> simp [Tok.isOp] at h <;> rfl
+
+theorem keyScalar_isKey {t : Tok} (h : t.isKey = true) :
+    toDomTok t ≠ .mixedContainer ∧ ∃ kb, (toDomTok t).keyScalar? = some kb := by
+  cases t <;> simp [Tok.isKey] at h <;> simp [toDomTok, Dom.TTok.keyScalar?]
+
+theorem gr_sound {k : GK} {ts : List Tok} {b : Nat} (h : Gr k ts b) :
+    ∀ T A B, T = A ++ ts ++ B → b = A.length → ObjsIn T b (b + ts.length) ∧ Sem T k b ts.length := by
+  induction h with
+  | @scal t b hkey =>
+    intro T A B hT hb
+    have h0 : T[b]? = some t := by rw [hT, hb]; simpa using mid_get A [t] B 0 (by simp)
+    refine ⟨?_, ?_⟩
+    · intro i e m h1 h2 hi
+      have : i = b := by simp at h2; omega
+      subst this; rw [h0] at hi; simp at hi; subst hi; simp [Tok.isKey] at hkey
+    · intro e he
+      cases t <;> simp [Tok.isKey] at hkey <;> simp [Dom.valueNext, h0, toDomTok]
+  | @arr mid b m hmid ih =>
+    intro T A B hT hb
+    have hlen : (Tok.array (b + 1 + mid.length) m :: (mid ++ [.endTok b])).length = mid.length + 2 := by simp
+    have h0 : T[b]? = some (.array (b + 1 + mid.length) m) := by
+      rw [hT, hb]; simpa using mid_get A _ B 0 (by rw [← hb, hlen]; omega)
+    have hl : T[b + 1 + mid.length]? = some (.endTok b) := by
+      have := mid_get A (Tok.array (b + 1 + mid.length) m :: (mid ++ [.endTok b])) B (mid.length + 1) (by rw [hlen]; omega)
+      rw [hT, hb]; rw [← hb] at this ⊢
+      simpa [Nat.add_assoc, Nat.add_comm, Nat.add_left_comm, hb] using this
+    obtain ⟨ihO, _⟩ := ih T (A ++ [.array (b + 1 + mid.length) m]) (.endTok b :: B) (by simp [hT]) (by simp [hb])
+    refine ⟨?_, ?_⟩
+    · intro i e m' h1 h2 hi
+      rw [hlen] at h2
+      by_cases hib : i = b
+      · subst hib; rw [h0] at hi; simp at hi
+      · by_cases hie : i = b + 1 + mid.length
+        · subst hie; rw [hl] at hi; simp at hi
+        · exact ihO i e m' (by omega) (by omega) hi
+    · intro e he
+      rw [hlen] at he ⊢
+      simp only [Dom.valueNext, toDomTape_get, h0, Option.map_some, toDomTok]
+      rw [if_pos (by omega)]
+      congr 1; omega
+  | @obj mid b m x hmid hmx ih =>
+    intro T A B hT hb
+    have hlen : (Tok.object (b + 1 + mid.length) m :: (mid ++ [.endTok b])).length = mid.length + 2 := by simp
+    have h0 : T[b]? = some (.object (b + 1 + mid.length) m) := by
+      rw [hT, hb]; simpa using mid_get A _ B 0 (by rw [← hb, hlen]; omega)
+    have hl : T[b + 1 + mid.length]? = some (.endTok b) := by
+      have := mid_get A (Tok.object (b + 1 + mid.length) m :: (mid ++ [.endTok b])) B (mid.length + 1) (by rw [hlen]; omega)
+      rw [hT, hb]; rw [← hb] at this ⊢
+      simpa [Nat.add_assoc, Nat.add_comm, Nat.add_left_comm, hb] using this
+    obtain ⟨ihO, ihS⟩ := ih T (A ++ [.object (b + 1 + mid.length) m]) (.endTok b :: B) (by simp [hT]) (by simp [hb])
+    refine ⟨?_, ?_⟩
+    · intro i e m' h1 h2 hi
+      rw [hlen] at h2
+      by_cases hib : i = b
+      · subst hib; rw [h0] at hi; simp at hi
+        obtain ⟨rfl, rfl⟩ := hi
+        have hTl : mid.length < Dom.fuelOf (toDomTape T) := by
+          simp only [Dom.fuelOf, toDomTape_size, hT]; simp; omega
+        obtain ⟨q, hq, hx⟩ := ihS _ hTl
+        exact ⟨q, hq, fun hm => hx (hmx hm)⟩
+      · by_cases hie : i = b + 1 + mid.length
+        · subst hie; rw [hl] at hi; simp at hi
+        · exact ihO i e m' (by omega) (by omega) hi
+    · intro e he
+      rw [hlen] at he ⊢
+      simp only [Dom.valueNext, toDomTape_get, h0, Option.map_some, toDomTok]
+      rw [if_pos (by omega)]
+      congr 1; omega
+  | @hdr t r b hs hv hst ih =>
+    intro T A B hT hb
+    have h0 : T[b]? = some (.header hs) := by
+      rw [hT, hb]; simpa using mid_get A (.header hs :: t :: r) B 0 (by simp)
+    obtain ⟨ihO, ihS⟩ := ih T (A ++ [.header hs]) B (by simp [hT]) (by simp [hb])
+    have h1 : T[b + 1]? = some t := by
+      rw [hT, hb]; simpa using mid_get A (.header hs :: t :: r) B 1 (by simp)
+    refine ⟨?_, ?_⟩
+    · intro i e m' h1' h2 hi
+      by_cases hib : i = b
+      · subst hib; rw [h0] at hi; simp at hi
+      · exact ihO i e m' (by omega) (by simp at h2 ⊢; omega) hi
+    · intro e he
+      have := ihS e (by simp at he ⊢; omega)
+      simp only [List.length_cons] at this ⊢
+      cases t <;> simp [Tok.isStartTok] at hst
+      all_goals
+        simp only [Dom.valueNext, toDomTape_get, h0, h1, Option.map_some, toDomTok] at this ⊢
+        rw [this]; congr 1; omega
+  | inil => intro T A B hT hb; exact ⟨by intro i e m h1 h2; simp at h2; omega, trivial⟩
+  | @ival v rest b hv hr ihv ihr =>
+    intro T A B hT hb
+    obtain ⟨ihO, _⟩ := ihv T A (rest ++ B) (by simp [hT]) hb
+    obtain ⟨ihO', _⟩ := ihr T (A ++ v) B (by simp [hT]) (by simp [hb])
+    refine ⟨?_, trivial⟩
+    intro i e m h1 h2 hi
+    by_cases hlt : i < b + v.length
+    · exact ihO i e m h1 hlt hi
+    · exact ihO' i e m (by omega) (by simp at h2; omega) hi
+  | @itok t rest b ht hr ih =>
+    intro T A B hT hb
+    have h0 : T[b]? = some t := by
+      rw [hT, hb]; simpa using mid_get A (t :: rest) B 0 (by simp)
+    obtain ⟨ihO, _⟩ := ih T (A ++ [t]) B (by simp [hT]) (by simp [hb])
+    refine ⟨?_, trivial⟩
+    intro i e m h1 h2 hi
+    by_cases hib : i = b
+    · subst hib; rw [h0] at hi; simp at hi; subst hi; simp [Tok.isStartTok] at ht
+    · exact ihO i e m (by omega) (by simp at h2; omega) hi
+  | @bnil b =>
+    intro T A B hT hb
+    refine ⟨by intro i e m h1 h2; simp at h2; omega, ?_⟩
+    intro f hf
+    obtain ⟨f', rfl⟩ := Nat.exists_eq_succ_of_ne_zero (by omega : f ≠ 0)
+    exact ⟨b, by simp [Dom.objWalkF], by simp⟩
+  | @bmixed rest b hr ih =>
+    intro T A B hT hb
+    have h0 : T[b]? = some .mixedContainer := by
+      rw [hT, hb]; simpa using mid_get A (.mixedContainer :: rest) B 0 (by simp)
+    obtain ⟨ihO, _⟩ := ih T (A ++ [.mixedContainer]) B (by simp [hT]) (by simp [hb])
+    refine ⟨?_, ?_⟩
+    · intro i e m h1 h2 hi
+      by_cases hib : i = b
+      · subst hib; rw [h0] at hi; simp at hi
+      · exact ihO i e m (by omega) (by simp at h2; omega) hi
+    · intro f hf
+      obtain ⟨f', rfl⟩ := Nat.exists_eq_succ_of_ne_zero (by omega : f ≠ 0)
+      refine ⟨b, ?_, by simp⟩
+      simp [Dom.objWalkF, h0, toDomTok]
+  | @bfield k ops v rest b x hkey hops hv hr ihv ihr =>
+    intro T A B hT hb
+    have h0 : T[b]? = some k := by
+      rw [hT, hb]; simpa using mid_get A (k :: (ops ++ (v ++ rest))) B 0 (by simp)
+    obtain ⟨ihvO, ihvS⟩ := ihv T (A ++ k :: ops) (rest ++ B) (by simp [hT]) (by simp [hb]; omega)
+    obtain ⟨ihrO, ihrS⟩ := ihr T (A ++ k :: (ops ++ v)) B (by simp [hT]) (by simp [hb]; omega)
+    obtain ⟨t, r, hvt, htop⟩ := hv.val_head rfl
+    have hlen : (k :: (ops ++ (v ++ rest))).length = 1 + ops.length + v.length + rest.length := by
+      simp; omega
+    have hvlen : 0 < v.length := by rw [hvt]; simp
+    refine ⟨?_, ?_⟩
+    · intro i e m h1 h2 hi
+      rw [hlen] at h2
+      by_cases hib : i = b
+      · subst hib; rw [h0] at hi; simp at hi; subst hi; simp [Tok.isKey] at hkey
+      · by_cases hio : i < b + 1 + ops.length
+        · -- an operator token
+          rcases hops with rfl | ⟨o, rfl⟩
+          · simp at hio; omega
+          · have : i = b + 1 := by simp at hio; omega
+            subst this
+            have h1' : T[b + 1]? = some (.operator o) := by
+              rw [hT, hb]; simpa using mid_get A (k :: ([.operator o] ++ (v ++ rest))) B 1 (by simp)
+            rw [h1'] at hi; simp at hi
+        · by_cases hiv : i < b + 1 + ops.length + v.length
+          · exact ihvO i e m (by omega) hiv hi
+          · exact ihrO i e m (by omega) (by omega) hi
+    · intro f hf
+      rw [hlen] at hf ⊢
+      obtain ⟨f', rfl⟩ := Nat.exists_eq_succ_of_ne_zero (by omega : f ≠ 0)
+      obtain ⟨q, hq, hx⟩ := ihrS f' (by omega)
+      obtain ⟨hnm, kb, hkb⟩ := keyScalar_isKey hkey
+      have hval := ihvS (b + (1 + ops.length + v.length + rest.length)) (by omega)
+      refine ⟨q, ?_, fun hx' => by have := hx hx'; omega⟩
+      have he : b + 1 + ops.length + v.length + rest.length = b + (1 + ops.length + v.length + rest.length) := by omega
+      rw [he] at hq
+      rcases hops with rfl | ⟨o, rfl⟩
+      · have h1' : T[b + 1]? = some t := by
+          rw [hT, hb, hvt]; simpa using mid_get A (k :: ([] ++ ((t :: r) ++ rest))) B 1 (by simp)
+        simp only [List.length_nil, Nat.add_zero] at hval hq ⊢
+        rw [Dom.objWalkF, if_neg (by omega)]
+        simp only [toDomTape_get, h0, h1', Option.map_some, if_neg hnm, hkb, opValueOf_nonop b htop]
+        rw [if_pos (by omega), hval]
+        exact hq
+      · have h1' : T[b + 1]? = some (.operator o) := by
+          rw [hT, hb]; simpa using mid_get A (k :: ([.operator o] ++ (v ++ rest))) B 1 (by simp)
+        simp only [List.length_cons, List.length_nil, Nat.zero_add] at hval hq ⊢
+        rw [Dom.objWalkF, if_neg (by omega)]
+        simp only [toDomTape_get, h0, h1', Option.map_some, if_neg hnm, hkb]
+        rw [show (Dom.opValueOf b (toDomTok (Tok.operator o))).2 = b + 1 + 1 from rfl]
+        rw [if_pos (by omega), hval]
+        exact hq
+
+theorem dom_objectsOkF (T : List Tok) (hO : ObjsIn T 0 T.length) :
+    ∀ (ts : List Tok) (i : Nat), (∀ k t, ts[k]? = some t → T[i + k]? = some t) →
+      Dom.objectsOkF (toDomTape T) i (ts.map toDomTok) = true := by
+  intro ts
+  induction ts with
+  | nil => intro i _; simp [Dom.objectsOkF]
+  | cons t ts ih =>
+    intro i hsub
+    simp only [List.map_cons, Dom.objectsOkF, Bool.and_eq_true]
+    refine ⟨?_, ih (i + 1) ?_⟩
+    · have hi : T[i]? = some t := by simpa using hsub 0 t (by simp)
+      cases t <;> simp only [toDomTok]
+      next e m =>
+        obtain ⟨q, hq, hm⟩ := hO i e m (Nat.zero_le _) (List.getElem?_eq_some_iff.1 hi).1 hi
+        rw [hq]
+        cases m <;> simp at hm ⊢
+        exact hm
+    · intro k t' hk
+      have := hsub (k + 1) t' (by simpa using hk)
+      simpa [Nat.add_assoc, Nat.add_comm 1 k] using this
+
+/-- a tape that is a regular body (from index 0) satisfies the object-body part of `Dom.wfTape` -/
+theorem gr_objects {T : List Tok} {x : Bool} (h : Gr (.body x) T 0) :
+    (Dom.objWalk (toDomTape T) 0 (toDomTape T).size).isSome = true ∧
+      Dom.objectsOkF (toDomTape T) 0 (toDomTape T).toList = true := by
+  obtain ⟨hO, hS⟩ := gr_sound h T [] [] (by simp) rfl
+  refine ⟨?_, ?_⟩
+  · obtain ⟨q, hq, _⟩ := hS (Dom.fuelOf (toDomTape T)) (by simp [Dom.fuelOf])
+    simp only [Dom.objWalk, toDomTape_size]
+    simp only [Nat.zero_add] at hq
+    rw [hq]; rfl
+  · rw [toDomTape_toList]
+    exact dom_objectsOkF T (by simpa using hO) T 0 (by intro k t h; simpa using h)
+
+end Jomini.TextTape
+
+namespace Jomini.TextTape
+
+/-! ### the tapes of the document fragments are regular -/
+
+theorem Gr.cast {k : GK} {ts ts' : List Tok} {b b' : Nat} (h : Gr k ts b) (e1 : ts' = ts) (e2 : b' = b) :
+    Gr k ts' b' := by subst e1; subst e2; exact h
+
+theorem Gr.body_append {k : GK} {fs : List Tok} {b : Nat} (h : Gr k fs b) :
+    k = .body false → ∀ (x : Bool) (more : List Tok), Gr (.body x) more (b + fs.length) →
+      Gr (.body x) (fs ++ more) b := by
+  induction h with
+  | bnil => intro _ x more hm; simpa using hm
+  | @bfield k ops v rest b x' hkey hops hv hr _ ihr =>
+    intro hk x more hm
+    simp only [GK.body.injEq] at hk
+    subst hk
+    have := ihr rfl x more (hm.cast rfl (by simp; omega))
+    exact (Gr.bfield hkey hops hv this).cast (by simp) rfl
+  | _ => intro hk; simp at hk
+
+theorem Scal.tok_isKey (s : Scal) (a : Bytes) : (s.tok a).isKey = true := by
+  unfold Scal.tok; split <;> rfl
+
+theorem Scal.tok_notStart (s : Scal) (a : Bytes) : (s.tok a).isStartTok = false := by
+  unfold Scal.tok; split <;> rfl
+
+theorem paramTok_isKey (b : Bool) (sl : Slice) : (paramTok b sl).isKey = true := by
+  cases b <;> rfl
+
+theorem Op.toks_ok (o : Op) : o.toks = [] ∨ ∃ o', o.toks = [.operator o'] := by
+  cases o <;> simp [Op.toks]
+
+theorem gr_elems : ∀ (es : List (Bytes × Scal)) (a : Bytes) (b : Nat), Gr .items (elemToks es a) b
+  | [], _, _ => Gr.inil
+  | (_, s) :: r, a, b => by
+    simp only [elemToks]
+    exact Gr.itok (Scal.tok_notStart _ _) (gr_elems r a (b + 1))
+
+theorem jtapeV_head : ∀ (v : JVal) (b : Nat) (a : Bytes), v.isBraced → JValidV v a →
+    ∃ t r, jtapeV v b a = t :: r ∧ t.isStartTok = true
+  | .scal _ _, _, _, hb, _ => by simp [JVal.isBraced] at hb
+  | .empty _ _, _, _, _, _ => by simp only [jtapeV]; exact ⟨_, _, rfl, rfl⟩
+  | .obj .., _, _, _, _ => by simp only [jtapeV, List.cons_append, List.nil_append]; exact ⟨_, _, rfl, rfl⟩
+  | .arrS .., _, _, _, _ => by simp only [jtapeV, List.cons_append, List.nil_append]; exact ⟨_, _, rfl, rfl⟩
+  | .arrC .., _, _, _, _ => by simp only [jtapeV, List.cons_append, List.nil_append]; exact ⟨_, _, rfl, rfl⟩
+  | .mixed .., _, _, _, _ => by simp only [jtapeV, List.cons_append, List.nil_append]; exact ⟨_, _, rfl, rfl⟩
+  | .ghostIn _ _ _ v, b, a, _, hv => by
+    simp only [JValidV] at hv
+    simp only [jtapeV]
+    exact jtapeV_head v b a hv.2.2.2.1 hv.2.2.2.2.2
+
+theorem isContainer_isBraced {v : JVal} (h : v.isContainer) : v.isBraced := by
+  cases v <;> simp [JVal.isContainer] at h <;> simp [JVal.isBraced]
+
+/-! shape lemmas: the constructors of `Gr` in the syntactic shapes of `jtapeV` / `jtapeF` -/
+
+theorem Gr.objShape {mid : List Tok} {b E : Nat} {m x : Bool} (h : Gr (.body x) mid (b + 1))
+    (hm : m = true → x = true) (hE : E = b + 1 + mid.length) :
+    Gr .val ([.object E m] ++ mid ++ [.endTok b]) b := by
+  subst hE; exact (Gr.obj (m := m) h hm).cast (by simp) rfl
+
+theorem Gr.arrShape {mid : List Tok} {b E : Nat} {m : Bool} (h : Gr .items mid (b + 1))
+    (hE : E = b + 1 + mid.length) : Gr .val ([.array E m] ++ mid ++ [.endTok b]) b := by
+  subst hE; exact (Gr.arr (m := m) h).cast (by simp) rfl
+
+theorem Gr.fieldShape {k : Tok} {ops v rest : List Tok} {b b1 b2 : Nat} {x : Bool} (hk : k.isKey = true)
+    (hops : ops = [] ∨ ∃ o, ops = [.operator o]) (hv : Gr .val v b1) (hr : Gr (.body x) rest b2)
+    (e1 : b1 = b + 1 + ops.length) (e2 : b2 = b + 1 + ops.length + v.length) :
+    Gr (.body x) ([k] ++ ops ++ v ++ rest) b := by
+  subst e1; subst e2; exact (Gr.bfield hk hops hv hr).cast (by simp) rfl
+
+theorem Gr.fieldImpShape {k : Tok} {v rest : List Tok} {b b1 b2 : Nat} {x : Bool} (hk : k.isKey = true)
+    (hv : Gr .val v b1) (hr : Gr (.body x) rest b2) (e1 : b1 = b + 1) (e2 : b2 = b + 1 + v.length) :
+    Gr (.body x) ([k] ++ v ++ rest) b := by
+  subst e1; subst e2
+  exact (Gr.bfield (ops := []) hk (.inl rfl) (hv.cast rfl (by simp)) (hr.cast rfl (by simp))).cast (by simp) rfl
+
+theorem Gr.hdrShape {k t : Tok} {ops v r rest : List Tok} {b b1 b2 : Nat} {x : Bool} {h : Slice}
+    (hk : k.isKey = true) (hops : ops = [] ∨ ∃ o, ops = [.operator o]) (hvt : v = t :: r)
+    (ht : t.isStartTok = true) (hv : Gr .val v b1) (hr : Gr (.body x) rest b2)
+    (e1 : b1 = b + 1 + ops.length + 1) (e2 : b2 = b + 1 + ops.length + (1 + v.length)) :
+    Gr (.body x) ([k] ++ ops ++ [.header h] ++ v ++ rest) b := by
+  subst e1; subst e2; subst hvt
+  have hH := Gr.hdr (h := h) hv ht
+  exact (Gr.bfield hk hops hH (hr.cast rfl (by simp; omega))).cast (by simp) rfl
+
+theorem Gr.itokShape {t : Tok} {rest : List Tok} {b b1 : Nat} (ht : t.isStartTok = false)
+    (hr : Gr .items rest b1) (e1 : b1 = b + 1) : Gr .items ([t] ++ rest) b := by
+  subst e1; exact (Gr.itok ht hr).cast (by simp) rfl
+
+theorem Gr.mixedShape {k t : Tok} {ops v rest es : List Tok} {b b1 b2 b3 : Nat} (hk : k.isKey = true)
+    (hops : ops = [] ∨ ∃ o, ops = [.operator o]) (hv : Gr .val v b1) (hr : Gr (.body false) rest b2)
+    (ht : t.isStartTok = false) (hes : Gr .items es b3)
+    (e1 : b1 = b + 1 + ops.length) (e2 : b2 = b + 1 + ops.length + v.length)
+    (e3 : b3 = b + 1 + ops.length + v.length + rest.length + 1 + 1) :
+    Gr (.body true) ([k] ++ ops ++ v ++ rest ++ [.mixedContainer, t] ++ es) b := by
+  subst e1; subst e2; subst e3
+  have hM := Gr.bmixed (Gr.itok ht hes)
+  have hrest := hr.body_append rfl true _ hM
+  exact (Gr.bfield hk hops hv hrest).cast (by simp) rfl
+
+theorem Gr.paramValShape {p : Tok} {s : Slice} {rest : List Tok} {b b2 : Nat} {x : Bool}
+    (hp : p.isKey = true) (hr : Gr (.body x) rest b2) (e2 : b2 = b + 2) :
+    Gr (.body x) ([p, .unquoted s] ++ rest) b := by
+  subst e2
+  exact (Gr.bfield (ops := []) (v := [.unquoted s]) hp (.inl rfl) (Gr.scal rfl)
+    (hr.cast rfl (by simp))).cast (by simp) rfl
+
+theorem Gr.paramObjShape {p : Tok} {s : Slice} {ops v inner rest : List Tok} {b b1 b2 b3 E : Nat} {x : Bool}
+    (hp : p.isKey = true) (hops : ops = [] ∨ ∃ o, ops = [.operator o]) (hv : Gr .val v b1)
+    (hi : Gr (.body false) inner b2) (hr : Gr (.body x) rest b3)
+    (e1 : b1 = b + 3 + ops.length) (e2 : b2 = b + 3 + ops.length + v.length)
+    (e3 : b3 = b + 3 + ops.length + v.length + inner.length + 1)
+    (hE : E = b + 3 + ops.length + v.length + inner.length) :
+    Gr (.body x) ([p, .object E false, .unquoted s] ++ ops ++ v ++ inner ++ [.endTok (b + 1)] ++ rest) b := by
+  subst e1; subst e2; subst e3; subst hE
+  have hbody := Gr.bfield (b := b + 1 + 1) (k := .unquoted s) rfl hops
+    (hv.cast rfl (by omega)) (hi.cast rfl (by omega))
+  have hobj := Gr.obj (m := false) hbody (by simp)
+  exact (Gr.bfield (ops := []) hp (.inl rfl) (hobj.cast rfl (by simp))
+    (hr.cast rfl (by simp; omega))).cast (by simp; omega) rfl
+
+mutual
+theorem grV : ∀ (v : JVal) (b : Nat) (a : Bytes), JValidV v a → Gr .val (jtapeV v b a) b
+  | .scal _ s, b, a, _ => by simp only [jtapeV]; exact Gr.scal (Scal.tok_isKey _ _)
+  | .empty _ _, b, a, _ => by
+    simp only [jtapeV]
+    exact (Gr.arr (mid := []) (m := false) Gr.inil).cast (by simp) rfl
+  | .obj _ _ k g1 o v rest gc, b, a, hv => by
+    simp only [JValidV] at hv
+    obtain ⟨_, _, _, _, _, _, h7, h8⟩ := hv
+    have hV := grV v (b + 1 + 1 + o.toks.length) _ h7
+    have hF := grF rest (b + 1 + (1 + o.toks.length + jcntV v)) _ h8
+    simp only [jtapeV]
+    refine Gr.objShape (Gr.fieldShape (Scal.tok_isKey _ _) (Op.toks_ok o) hV hF rfl ?_) (by simp) ?_
+    · rw [len_jtapeV]; omega
+    · simp only [List.length_cons, List.length_append, List.length_nil, len_jtapeV, len_jtapeF]; omega
+  | .arrS _ _ s0 rest gc, b, a, hv => by
+    simp only [JValidV] at hv
+    obtain ⟨_, _, _, _, _, _, h7⟩ := hv
+    have hVs := grVs rest (b + 1 + 1) _ h7
+    simp only [jtapeV]
+    refine Gr.arrShape (Gr.itokShape (Scal.tok_notStart _ _) hVs rfl) ?_
+    simp only [List.length_cons, List.length_append, List.length_nil, len_jtapeVs]; omega
+  | .arrC _ first rest gc, b, a, hv => by
+    simp only [JValidV] at hv
+    obtain ⟨_, _, _, h4, h5⟩ := hv
+    have hV := grV first (b + 1) _ h4
+    have hVs := grVs rest (b + 1 + jcntV first) _ h5
+    simp only [jtapeV]
+    refine Gr.arrShape (Gr.ival hV (hVs.cast rfl (by rw [len_jtapeV]))) ?_
+    simp only [List.length_append, len_jtapeV, len_jtapeVs]; omega
+  | .ghostIn _ _ _ v, b, a, hv => by
+    simp only [JValidV] at hv
+    simp only [jtapeV]
+    exact grV v b a hv.2.2.2.2.2
+  | .mixed _ _ k g1 o v rest gm m0 elems gc, b, a, hv => by
+    simp only [JValidV] at hv
+    obtain ⟨_, _, _, _, _, _, _, h8, h9, _⟩ := hv
+    have hV := grV v (b + 1 + 1 + o.toks.length) _ h8
+    have hF := grF rest (b + 1 + (1 + o.toks.length + jcntV v)) _ h9
+    have hE := gr_elems elems (gc ++ 125 :: a) (b + 1 + (1 + o.toks.length + jcntV v) + jcntF rest + 1 + 1)
+    simp only [jtapeV]
+    refine Gr.objShape (Gr.mixedShape (Scal.tok_isKey _ _) (Op.toks_ok o) hV hF (Scal.tok_notStart _ _) hE
+      rfl ?_ ?_) (by simp) ?_
+    · rw [len_jtapeV]; omega
+    · rw [len_jtapeV, len_jtapeF]; omega
+    · simp only [List.length_cons, List.length_append, List.length_nil, len_jtapeV, len_jtapeF, len_elemToks]
+      omega
+theorem grF : ∀ (fs : JFields) (b : Nat) (a : Bytes), JValidF fs a → Gr (.body false) (jtapeF fs b a) b
+  | .nil, _, _, _ => by simp only [jtapeF]; exact Gr.bnil
+  | .cons _ k g1 o v rest, b, a, hv => by
+    simp only [JValidF] at hv
+    obtain ⟨_, _, _, _, h5, h6⟩ := hv
+    have hV := grV v (b + 1 + o.toks.length) _ h5
+    have hF := grF rest (b + (1 + o.toks.length + jcntV v)) _ h6
+    simp only [jtapeF]
+    exact Gr.fieldShape (Scal.tok_isKey _ _) (Op.toks_ok o) hV hF rfl (by rw [len_jtapeV]; omega)
+  | .consImp _ k v rest, b, a, hv => by
+    simp only [JValidF] at hv
+    obtain ⟨_, _, _, _, h5, h6⟩ := hv
+    have hV := grV v (b + 1) _ h5
+    have hF := grF rest (b + (1 + jcntV v)) _ h6
+    simp only [jtapeF]
+    exact Gr.fieldImpShape (Scal.tok_isKey _ _) hV hF rfl (by rw [len_jtapeV]; omega)
+  | .ghost _ _ rest, b, a, hv => by
+    simp only [JValidF] at hv
+    simp only [jtapeF]
+    exact grF rest b a hv.2.2
+  | .consHdr _ k g1 o gh h body rest, b, a, hv => by
+    simp only [JValidF] at hv
+    obtain ⟨_, _, _, _, _, _, _, _, h9, h10, h11⟩ := hv
+    have hV := grV body (b + 1 + o.toks.length + 1) _ h10
+    have hF := grF rest (b + (1 + o.toks.length + (1 + jcntV body))) _ h11
+    obtain ⟨t, r, htr, ht⟩ := jtapeV_head body (b + 1 + o.toks.length + 1) (jrenderF rest ++ a)
+      (isContainer_isBraced h9) h10
+    simp only [jtapeF]
+    exact Gr.hdrShape (Scal.tok_isKey _ _) (Op.toks_ok o) htr ht hV hF rfl (by rw [len_jtapeV]; omega)
+  | .paramVal _ isU name g1 val g2 rest, b, a, hv => by
+    simp only [JValidF] at hv
+    have hF := grF rest (b + 2) _ hv.2.2.2.2.2.2.2
+    simp only [jtapeF]
+    exact Gr.paramValShape (paramTok_isKey _ _) hF rfl
+  | .paramObj _ isU name g1 k g2 o v inner gc rest, b, a, hv => by
+    simp only [JValidF] at hv
+    obtain ⟨_, _, _, _, _, _, _, _, h9, h10, h11⟩ := hv
+    have hV := grV v (b + 3 + o.toks.length) _ h9
+    have hI := grF inner (b + 2 + (1 + o.toks.length + jcntV v)) _ h10
+    have hF := grF rest (b + ((3 + (1 + o.toks.length + jcntV v) + jcntF inner))) _ h11
+    simp only [jtapeF]
+    refine Gr.paramObjShape (paramTok_isKey _ _) (Op.toks_ok o) hV hI hF rfl ?_ ?_ ?_
+    · rw [len_jtapeV]; omega
+    · rw [len_jtapeV, len_jtapeF]; omega
+    · rw [len_jtapeV, len_jtapeF]; omega
+theorem grVs : ∀ (vs : JVals) (b : Nat) (a : Bytes), JValidVs vs a → Gr .items (jtapeVs vs b a) b
+  | .nil, _, _, _ => by simp only [jtapeVs]; exact Gr.inil
+  | .cons v rest, b, a, hv => by
+    simp only [JValidVs] at hv
+    simp only [jtapeVs]
+    exact Gr.ival (grV v b _ hv.1) ((grVs rest (b + jcntV v) a hv.2).cast rfl (by rw [len_jtapeV]))
+end
+
+/-- C17 hypothesis, in full, for the documents of fragment 3 (objects, arrays, empty containers,
+ghost objects, headers, implicit `=`, variables, mixed containers, parameter blocks — any depth,
+any layout; fragments 1 and 2 are sub-grammars of it).
+
+The full statement would be
+  `C17_parsed_tape_wf : parse input = .ok T b → Dom.wfTape (toDomTape T) = true` for ALL inputs.
+Its link / nesting / header half IS proved for all inputs (`C17_parsed_tape_links`); missing for
+all inputs is the object-body half, i.e. `Gr (.body x) T 0` (`gr_objects` turns that into the two
+remaining conjuncts of `Dom.wfTape`) as an invariant of the state machine: in Key /
+KeyValueSeparator / ObjectValue states the body of every open object is a `Gr` prefix plus the
+pending `key [op] [header]` tokens, and a level in mixed mode has reached its `MixedContainer`. -/
+theorem C17_parsed_tape_wf_partial (fs : JFields) (gt : Bytes) (hgt : Blank gt) (hv : JValidF fs gt)
+    (hb : hasBom (jrenderF fs ++ gt) = false) :
+    ∃ T, parse (jrenderF fs ++ gt) = .ok T false ∧ Dom.wfTape (toDomTape T) = true := by
+  have hp := parse_tree fs gt hgt hv hb
+  refine ⟨_, hp, ?_⟩
+  obtain ⟨h1, h2⟩ := C17_parsed_tape_links _ _ _ hp
+  obtain ⟨h3, h4⟩ := gr_objects (grF fs 0 gt hv)
+  simp only [Dom.wfTape, h1, h2, h3, h4, Bool.and_self]
+
+/-- the hypotheses are satisfiable (a mixed container, a parameter block) -/
+example : ∃ T, parse (jrenderF exampleMixed ++ [10]) = .ok T false ∧ Dom.wfTape (toDomTape T) = true :=
+  C17_parsed_tape_wf_partial exampleMixed [10] exampleMixed_valid.2.1 exampleMixed_valid.1 exampleMixed_valid.2.2
+
+example : ∃ T, parse (jrenderF exampleParam ++ [10]) = .ok T false ∧ Dom.wfTape (toDomTape T) = true :=
+  C17_parsed_tape_wf_partial exampleParam [10] exampleParam_valid.2.1 exampleParam_valid.1 exampleParam_valid.2.2
+
+end Jomini.TextTape
+
+namespace Jomini.TextTape
 /-- the hypothesis is satisfiable: `a=rgb{1}` parses (tape U H A U E) -/
 example : parse [97, 61, 114, 103, 98, 123, 49, 125] =
     .ok [.unquoted ⟨8, [97]⟩, .header ⟨6, [114, 103, 98]⟩, .array 4 false, .unquoted ⟨2, [49]⟩, .endTok 2] false := by
